@@ -20,8 +20,6 @@ class P(StreamProperty):
             return 'st=%s src=%s' % (d.get('st'), ';'.join('%d:%s' % (i, v[1]) for i, v in sorted(src.items())))
         if op in ('complete', 'cwdump'):
             return out
-        if op in ('recv', 'avail', 'finish'):
-            return 'st=' + kv(out).get('st', '?')
         return 'x'
 
     def is_nontrivial(self, c):
